@@ -122,7 +122,7 @@ class Ctx:
         """True iff the current hypotheses imply  not b  (cheap incremental query, cached; unknown -> False)"""
         if not self.fold_flags:
             return False
-        h = b.hash()
+        h = tid(b)
         hit = self._fcache.get(h)
         if hit is not None and hit[0] == (len(self.pc), len(self.facts)) :
             return hit[1]
@@ -210,6 +210,19 @@ class Ctx:
 
 def ctx():
     return Ctx.cur
+
+
+_alive = {}
+
+
+def tid(t):
+    """unique key of a z3 term (ast id; the term is kept alive so the id cannot be reused). z3's hash() collides."""
+    i = t.get_id()
+    c = Ctx.cur
+    store = c.__dict__.setdefault('_alive', {}) if c is not None else _alive
+    if i not in store:
+        store[i] = t
+    return i
 
 
 # ---------------------------------------------------------------- bool helpers
@@ -497,6 +510,8 @@ def isub(a, b):
         return a - b
     if isinstance(b, int) and b == 0:
         return a
+    if isinstance(b, int):
+        return zi(a) + zi(-b)      # canonical form: the same term as iadd(a, -b)
     return zi(a) - zi(b)
 
 
